@@ -1253,3 +1253,8 @@ fn test_parse() {
         "192.0.2.0/24->192.0.2.254,198.51.100.0/24->192.0.2.254"
     );
 }
+
+#[cfg(feature = "isomer_erbium_verif")]
+mod isomer_erbium_verif {
+    include!(concat!(env!("ISOMER_ERBIUM_VERIF_DIR"), "/dhcp_dhcppkt.rs"));
+}
